@@ -449,14 +449,20 @@ def run_check(P, tier, seed, replay=None):
         except Exception as e:  # harness bug or impl crash outside what run_impl classifies
             obs = {"harness_exception": repr(e), "tb": traceback.format_exc()[-1500:]}
         observations.append(obs)
-        msg = P.oracle(case, obs)
+        try:
+            msg = P.oracle(case, obs)
+        except Exception as e:  # an observation the oracle cannot digest (e.g. NaN where a number is expected) is not "ok"
+            msg = "the oracle could not evaluate the observation: " + repr(e) + " " + traceback.format_exc()[-600:]
         if msg:
             bads.append((k, msg))
-        for feat in P.features(case, obs):
-            hist[feat] = hist.get(feat, 0) + 1
-        key = P.nontrivial_key(case, obs)
-        if key is not None:
-            keys.add(key)
+        try:
+            for feat in P.features(case, obs):
+                hist[feat] = hist.get(feat, 0) + 1
+            key = P.nontrivial_key(case, obs)
+            if key is not None:
+                keys.add(key)
+        except Exception:
+            hist["features_unavailable"] = hist.get("features_unavailable", 0) + 1
 
     # 4. correspondence with the Coq model
     drift = []
@@ -464,8 +470,17 @@ def run_check(P, tier, seed, replay=None):
     coq_errors = []
     n_coq = 0
     if build["ok"] and hasattr(P, "coq_case"):
-        idx = [k for k in range(len(cases)) if P.coq_applicable(cases[k], observations[k])]
-        terms = [P.coq_case(cases[k], observations[k]) for k in idx]
+        idx, terms = [], []
+        for k in range(len(cases)):
+            try:
+                if P.coq_applicable(cases[k], observations[k]):
+                    t = P.coq_case(cases[k], observations[k])
+                    idx.append(k)
+                    terms.append(t)
+            except Exception as e:  # unrenderable observation: the case cannot be compared with the model
+                coq_errors.append(f"case {k} could not be rendered for Coq: {e!r}")
+                if not any(b[0] == k for b in bads):
+                    bads.append((k, "the observation could not be rendered for the Coq comparison: " + repr(e)))
         with coq_dir_lock(P.COQ_FILES, exclusive=False):
             codes, coq_errors = eval_coq_cases(prop_id, P.COQ_PRELUDE, P.COQ_CHECK, terms,
                                                shard=getattr(P, "SHARD", 300), case_type=getattr(P, "COQ_CASE_TYPE", None))
@@ -493,13 +508,19 @@ def run_check(P, tier, seed, replay=None):
         small = case
         if hasattr(P, "shrink"):
             def still_bad(c):
-                return bool(P.oracle(c, P.run_impl(c)))
+                try:
+                    return bool(P.oracle(c, P.run_impl(c)))
+                except Exception:
+                    return False
             try:
                 small = minimise(case, still_bad, P.shrink)
             except Exception:
                 small = case
-            obs = P.run_impl(small)
-            msg = P.oracle(small, obs) or msg
+            try:
+                obs = P.run_impl(small)
+                msg = P.oracle(small, obs) or msg
+            except Exception:
+                small = case
         kf = match_known(prop_id, small, msg, findings) or match_known(prop_id, case, msg, findings)
         if kf:
             line = f"KNOWN-FINDING: property={prop_id} {kf.get('what', '')}"
@@ -542,7 +563,10 @@ def run_check(P, tier, seed, replay=None):
                 obs = P.run_impl(case)
             except Exception as e:
                 obs = {"harness_exception": repr(e)}
-            msg = P.oracle(case, obs)
+            try:
+                msg = P.oracle(case, obs)
+            except Exception as e:
+                msg = "the oracle could not evaluate the observation: " + repr(e)
             if msg:
                 before = violations
                 n_lines = len(lines)
